@@ -9,7 +9,7 @@ use crate::{
     type_qualifiers::GraphqlTypeQualifier,
     GeneralError, GraphQLClientCodegenOptions,
 };
-use heck::ToSnakeCase;
+use heck::{ToSnakeCase, ToUpperCamelCase};
 use proc_macro2::{Ident, Span, TokenStream};
 use quote::{quote, ToTokens};
 use selection::*;
@@ -102,12 +102,8 @@ fn generate_variables_struct(
                 let value = graphql_parser_value_to_literal(
                     default,
                     variable.r#type.id,
-                    variable
-                        .r#type
-                        .qualifiers
-                        .first()
-                        .map(|qual| !qual.is_required())
-                        .unwrap_or(true),
+                    &variable.r#type.qualifiers,
+                    options,
                     query,
                 );
 
@@ -251,11 +247,13 @@ fn generate_fragment_definitions<'a>(
     })
 }
 
-/// For default value constructors.
+/// For default value constructors: the literal for `value` at the type `ty` with the given
+/// qualifiers (the outermost one first).
 fn graphql_parser_value_to_literal<'doc, T>(
     value: &graphql_parser::query::Value<'doc, T>,
     ty: TypeId,
-    is_optional: bool,
+    qualifiers: &[GraphqlTypeQualifier],
+    options: &GraphQLClientCodegenOptions,
     query: &BoundQuery<'_>,
 ) -> TokenStream
 where
@@ -264,7 +262,66 @@ where
 {
     use graphql_parser::query::Value;
 
-    let inner = match value {
+    let (is_optional, qualifiers) = match qualifiers.first() {
+        Some(GraphqlTypeQualifier::Required) => (false, &qualifiers[1..]),
+        _ => (true, qualifiers),
+    };
+
+    let inner = match (qualifiers.first(), value) {
+        (Some(GraphqlTypeQualifier::List), Value::List(elements)) => {
+            let elements = elements.iter().map(|element| {
+                graphql_parser_value_to_literal(element, ty, &qualifiers[1..], options, query)
+            });
+            quote! {
+                vec![
+                    #(#elements,)*
+                ]
+            }
+        }
+        // Input coercion: a single value where a list is expected is the list of that value.
+        (Some(GraphqlTypeQualifier::List), Value::Variable(_) | Value::Null) => {
+            scalar_value_to_literal(value, ty, options, query)
+        }
+        (Some(GraphqlTypeQualifier::List), single) => {
+            let element =
+                graphql_parser_value_to_literal(single, ty, &qualifiers[1..], options, query);
+            quote!(vec![#element])
+        }
+        (_, Value::List(elements)) => {
+            // Not a valid default value; the elements are still visited (they may be invalid too).
+            let elements = elements
+                .iter()
+                .map(|element| graphql_parser_value_to_literal(element, ty, &[], options, query));
+            quote!(vec![#(#elements,)*])
+        }
+        (_, value) => scalar_value_to_literal(value, ty, options, query),
+    };
+
+    if is_optional {
+        quote!(Some(#inner))
+    } else {
+        inner
+    }
+}
+
+/// The literal for a value that is not a list, at the named type `ty`.
+fn scalar_value_to_literal<'doc, T>(
+    value: &graphql_parser::query::Value<'doc, T>,
+    ty: TypeId,
+    options: &GraphQLClientCodegenOptions,
+    query: &BoundQuery<'_>,
+) -> TokenStream
+where
+    T: graphql_parser::query::Text<'doc>,
+    T::Value: quote::ToTokens,
+{
+    use graphql_parser::query::Value;
+
+    let scalar_name = ty
+        .as_scalar_id()
+        .map(|scalar_id| query.schema.get_scalar(scalar_id).name.as_str());
+
+    match value {
         Value::Boolean(b) => {
             if *b {
                 quote!(true)
@@ -278,33 +335,39 @@ where
         Value::Float(f) => quote!(#f),
         Value::Int(i) => {
             let i = i.as_i64();
-            quote!(#i)
-        }
-        Value::Enum(en) => quote!(#en),
-        Value::List(inner) => {
-            let elements = inner
-                .iter()
-                .map(|val| graphql_parser_value_to_literal(val, ty, false, query));
-            quote! {
-                vec![
-                    #(#elements,)*
-                ]
+            match (scalar_name, i) {
+                // An integer literal is a valid `Float` and a valid `ID`.
+                (Some("Float"), Some(i)) => {
+                    let f = i as f64;
+                    quote!(#f)
+                }
+                (Some("ID"), Some(i)) => {
+                    let s = i.to_string();
+                    quote!(#s.to_string())
+                }
+                _ => quote!(#i),
             }
         }
+        Value::Enum(en) => match ty.as_enum_id() {
+            Some(enum_id) => {
+                let normalization = options.normalization();
+                let enum_name = normalization.enum_name(&query.schema.get_enum(enum_id).name);
+                let enum_name = Ident::new(enum_name.as_ref(), Span::call_site());
+                let variant = shared::keyword_replace(normalization.enum_variant(en.as_ref()));
+                let variant = Ident::new(variant.as_ref(), Span::call_site());
+                quote!(#enum_name::#variant)
+            }
+            None => quote!(#en),
+        },
+        Value::List(_) => unreachable!("lists are handled by the caller"),
         Value::Object(obj) => ty
             .as_input_id()
-            .map(|input_id| render_object_literal(obj, input_id, query))
+            .map(|input_id| render_object_literal(obj, input_id, options, query))
             .unwrap_or_else(|| {
                 quote!(compile_error!(
                     "Object literal on a non-input-object field."
                 ))
             }),
-    };
-
-    if is_optional {
-        quote!(Some(#inner))
-    } else {
-        inner
     }
 }
 
@@ -312,6 +375,7 @@ where
 fn render_object_literal<'doc, T>(
     object_map: &BTreeMap<T::Value, graphql_parser::query::Value<'doc, T>>,
     input_id: InputId,
+    options: &GraphQLClientCodegenOptions,
     query: &BoundQuery<'_>,
 ) -> TokenStream
 where
@@ -319,29 +383,81 @@ where
     T::Value: quote::ToTokens,
 {
     let input = query.schema.get_input(input_id);
-    let constructor = Ident::new(&input.name, Span::call_site());
+    // The same names as in the definition of the input type (see `inputs.rs`).
+    let constructor = shared::keyword_replace(options.normalization().input_name(&input.name));
+    let constructor = Ident::new(constructor.as_ref(), Span::call_site());
+
+    if input.is_one_of {
+        // A `@oneOf` input is an enum: the literal is the variant of its (single) member.
+        let variants: Vec<TokenStream> = input
+            .fields
+            .iter()
+            .filter_map(|(name, r#type)| {
+                object_map.get(name).map(|value| {
+                    let variant = shared::keyword_replace(name.to_upper_camel_case());
+                    let variant = Ident::new(variant.as_ref(), Span::call_site());
+                    let mut qualifiers = vec![GraphqlTypeQualifier::Required];
+                    qualifiers.extend(r#type.qualifiers.iter().cloned());
+                    let value = graphql_parser_value_to_literal(
+                        value,
+                        r#type.id,
+                        &qualifiers,
+                        options,
+                        query,
+                    );
+                    let value = box_if_recursive(value, r#type.id, query);
+                    quote!(#constructor::#variant(#value))
+                })
+            })
+            .collect();
+
+        return match variants.as_slice() {
+            [variant] => variant.clone(),
+            _ => quote!(compile_error!(
+                "A @oneOf input object literal must have exactly one member."
+            )),
+        };
+    }
+
     let fields: Vec<TokenStream> = input
         .fields
         .iter()
         .map(|(name, r#type)| {
-            let field_name = Ident::new(name, Span::call_site());
+            let field_name = shared::keyword_replace(name.to_snake_case());
+            let field_name = Ident::new(field_name.as_ref(), Span::call_site());
             let provided_value = object_map.get(name);
-            match provided_value {
-                Some(default_value) => {
-                    let value = graphql_parser_value_to_literal(
-                        default_value,
-                        r#type.id,
-                        r#type.is_optional(),
-                        query,
-                    );
-                    quote!(#field_name: #value)
-                }
-                None => quote!(#field_name: None),
-            }
+            let value = match provided_value {
+                Some(default_value) => graphql_parser_value_to_literal(
+                    default_value,
+                    r#type.id,
+                    &r#type.qualifiers,
+                    options,
+                    query,
+                ),
+                None => quote!(None),
+            };
+            let value = box_if_recursive(value, r#type.id, query);
+            quote!(#field_name: #value)
         })
         .collect();
 
     quote!(#constructor {
         #(#fields,)*
     })
+}
+
+/// Fields whose type is a recursive input object are boxed (see `inputs.rs`).
+fn box_if_recursive(value: TokenStream, ty: TypeId, query: &BoundQuery<'_>) -> TokenStream {
+    let boxed = ty
+        .as_input_id()
+        .map(|input_id| {
+            crate::schema::input_is_recursive_without_indirection(input_id, query.schema)
+        })
+        .unwrap_or(false);
+
+    if boxed {
+        quote!(Box::new(#value))
+    } else {
+        value
+    }
 }
